@@ -1128,3 +1128,80 @@ func (m *Machine) nativeRegexpCall(fn *ssa.Function, args []Value) (Value, bool)
 	}
 	return t, true
 }
+
+// ---- internal/bytealg: the assembly primitives the standard library bottoms out in ----
+
+func asStr(v Value) Str {
+	switch x := v.(type) {
+	case Str:
+		return x
+	case []Value:
+		return bytesToStr(x)
+	}
+	unsupported("bytealg: argument of type %T", v)
+	return Str{}
+}
+
+func init() {
+	idxByte := func(m *Machine, fr *frame, fn *ssa.Function, a []Value) Value {
+		return inIndexByte(m, fr, fn, []Value{asStr(a[0]), a[1]})
+	}
+	idx := func(m *Machine, fr *frame, fn *ssa.Function, a []Value) Value {
+		return inIndex(m, fr, fn, []Value{asStr(a[0]), asStr(a[1])})
+	}
+	cnt := func(m *Machine, fr *frame, fn *ssa.Function, a []Value) Value {
+		c := a[1].(Int)
+		var sep Str
+		if c.T == nil {
+			sep = Str{S: string([]byte{byte(c.V)})}
+		} else {
+			sep = Str{S: "?", Sym: []*Term{c.T}}
+		}
+		return inCount(m, fr, fn, []Value{asStr(a[0]), sep})
+	}
+	intrinsics["internal/bytealg.IndexByteString"] = idxByte
+	intrinsics["internal/bytealg.IndexByte"] = idxByte
+	intrinsics["internal/bytealg.IndexString"] = idx
+	intrinsics["internal/bytealg.Index"] = idx
+	intrinsics["internal/bytealg.CountString"] = cnt
+	intrinsics["internal/bytealg.Count"] = cnt
+	intrinsics["internal/bytealg.Equal"] = func(m *Machine, fr *frame, fn *ssa.Function, a []Value) Value {
+		return mkBool(strEq(asStr(a[0]), asStr(a[1])))
+	}
+	intrinsics["bytes.Equal"] = intrinsics["internal/bytealg.Equal"]
+	intrinsics["internal/bytealg.Compare"] = func(m *Machine, fr *frame, fn *ssa.Function, a []Value) Value {
+		x, y := asStr(a[0]), asStr(a[1])
+		if m.branchIn(fr, mkBool(strEq(x, y))) {
+			return Int{V: 0}
+		}
+		if m.branchIn(fr, mkBool(strCmp(token.LSS, x, y))) {
+			return Int{V: ^uint64(0)}
+		}
+		return Int{V: 1}
+	}
+	intrinsics["internal/bytealg.LastIndexByteString"] = func(m *Machine, fr *frame, fn *ssa.Function, a []Value) Value {
+		return inLastIndexByte(m, fr, fn, []Value{asStr(a[0]), a[1]})
+	}
+	intrinsics["internal/bytealg.LastIndexByte"] = intrinsics["internal/bytealg.LastIndexByteString"]
+	intrinsics["internal/bytealg.MakeNoZero"] = func(m *Machine, fr *frame, fn *ssa.Function, a []Value) Value {
+		n := m.concInt(a[0])
+		out := make([]Value, n)
+		for i := range out {
+			out[i] = Int{}
+		}
+		return out
+	}
+}
+
+func init() {
+	dec := func(m *Machine, fr *frame, fn *ssa.Function, a []Value) Value {
+		s := asStr(a[0])
+		if len(s.S) == 0 {
+			return Tuple{Int{V: 0xFFFD}, Int{V: 0}}
+		}
+		r, w := m.decodeRune(s, 0)
+		return Tuple{r, Int{V: uint64(w)}}
+	}
+	intrinsics["unicode/utf8.DecodeRune"] = dec
+	intrinsics["unicode/utf8.DecodeRuneInString"] = dec
+}
